@@ -68,6 +68,23 @@ func init() {
 		followKeys = append(followKeys, fixtures.Get(a, 1).Pub)
 	}
 	followKeys = append(followKeys, nil)
+	followKeys = append(followKeys, degenerateKeys()...)
+}
+
+// usedObjectPolluters: inputs given to a claims object BEFORE the explored input ("start from non-initial
+// states"): the per-type unmarshal methods are documented entry points and nothing says the receiver is fresh.
+func usedObjectPolluters(p int, json bool) [][]byte {
+	a := choiceZero(p)
+	withNull := *a
+	withNull.CompsNil = false
+	withNull.Comps = []*refmodel.Comp{nil}
+	full := *a
+	full.Comps = []*refmodel.Comp{fullComp(1, 32), nil, okComp(2, 48)}
+	if json {
+		return [][]byte{wireJSON(&withNull), wireJSON(&full), wireJSON(a)[:20]}
+	}
+	w := mcbor.Encode(wireTree(a, true))
+	return [][]byte{mcbor.Encode(wireTree(&withNull, true)), mcbor.Encode(wireTree(&full, true)), w[:len(w)-3]}
 }
 
 // followUp exercises whatever a decoder returned without error.
@@ -175,6 +192,33 @@ func decodeEntries() []decodeEntry {
 			err := c.(*ExtP1Claims).UnmarshalJSON(in)
 			return c, err
 		}},
+	}
+	for _, p := range []int{1, 2} {
+		p := p
+		fresh := func() psatoken.IClaims {
+			if p == 1 {
+				return &psatoken.P1Claims{SwComponents: &psatoken.SwComponents[*psatoken.SwComponent]{}, CanonicalProfile: refmodel.P1Name}
+			}
+			return &psatoken.P2Claims{SwComponents: &psatoken.SwComponents[*psatoken.SwComponent]{}, CanonicalProfile: refmodel.P2Name}
+		}
+		for k, pol := range usedObjectPolluters(p, false) {
+			pol := pol
+			cborE = append(cborE, decodeEntry{fmt.Sprintf("P%dClaims.UnmarshalCBOR(used-object-%d)", p, k), false, func(in []byte) (any, error) {
+				c := fresh()
+				safely(func() { _ = c.(interface{ UnmarshalCBOR([]byte) error }).UnmarshalCBOR(pol) })
+				err := c.(interface{ UnmarshalCBOR([]byte) error }).UnmarshalCBOR(in)
+				return c, err
+			}})
+		}
+		for k, pol := range usedObjectPolluters(p, true) {
+			pol := pol
+			jsonE = append(jsonE, decodeEntry{fmt.Sprintf("P%dClaims.UnmarshalJSON(used-object-%d)", p, k), true, func(in []byte) (any, error) {
+				c := fresh()
+				safely(func() { _ = c.(interface{ UnmarshalJSON([]byte) error }).UnmarshalJSON(pol) })
+				err := c.(interface{ UnmarshalJSON([]byte) error }).UnmarshalJSON(in)
+				return c, err
+			}})
+		}
 	}
 	return append(cborE, jsonE...)
 }
@@ -303,6 +347,16 @@ func decodeSeeds() []decodeSeed {
 		payload := mcbor.Encode(wireTree(a, true))
 		env := mcbor.Tg(18, mcbor.A(mcbor.B(protHeader("ES256")), mcbor.M(), mcbor.B(payload), mcbor.B(pat(64, 0xa0))))
 		out = append(out, decodeSeed{fmt.Sprintf("envelope%d", i), false, mcbor.Encode(env), env})
+	}
+	for _, alg := range []string{"EdDSA", "PS256", "ES384"} {
+		payload := mcbor.Encode(wireTree(cl[0], true))
+		env := mcbor.Tg(18, mcbor.A(mcbor.B(protHeader(alg)), mcbor.M(), mcbor.B(payload), mcbor.B(pat(64, 0xa0))))
+		out = append(out, decodeSeed{"envelope-" + alg, false, mcbor.Encode(env), env})
+	}
+	{
+		payload := mcbor.Encode(wireTree(cl[0], true))
+		env := mcbor.Tg(18, mcbor.A(mcbor.B(protHeader("ES256")), mcbor.M(mcbor.U(4), mcbor.B([]byte("kid")), mcbor.U(1), mcbor.I(-7), mcbor.U(3), mcbor.T("application/eat")), mcbor.B(payload), mcbor.B(pat(64, 0xa0))))
+		out = append(out, decodeSeed{"envelope-unprotected-header", false, mcbor.Encode(env), env})
 	}
 	// codec-level maps
 	pm := mcbor.M(mcbor.U(1), mcbor.I(-5), mcbor.U(2), mcbor.T("b"), mcbor.I(-3), mcbor.B([]byte{1, 2}), mcbor.U(4), mcbor.U(7), mcbor.U(5), mcbor.Bool(true), mcbor.U(6), mcbor.U(9))
